@@ -842,3 +842,49 @@ Definition f18_chain : csrc :=
     {| ce_id := 2; ce_units := ObjectBoundingBox; ce_ts := ts_identity |} ].
 Definition f18_b1 : qrect := {| rx := 10; ry := 10; rw := 40; rh := 40 |}.
 Definition f18_b2 : qrect := {| rx := 100; ry := 20; rw := 80; rh := 60 |}.
+
+(* ------------------------------------------------------------------ object bounding box of a group *)
+Local Open Scope Q_scope.
+Lemma Qmin_o_le a b : Qmin_o a b <= a /\ Qmin_o a b <= b.
+Proof. unfold Qmin_o. destruct (Qleb a b) eqn:E; [apply Qleb_true in E|apply Qleb_false in E]; split; lra. Qed.
+Lemma Qmax_o_ge a b : a <= Qmax_o a b /\ b <= Qmax_o a b.
+Proof. unfold Qmax_o. destruct (Qleb a b) eqn:E; [apply Qleb_true in E|apply Qleb_false in E]; split; lra. Qed.
+
+Lemma rect_union_inside a b : rect_inside a (rect_union a b) /\ rect_inside b (rect_union a b).
+Proof.
+  unfold rect_inside, rect_union, r_right, r_bottom. simpl.
+  pose proof (Qmin_o_le (rx a) (rx b)) as [X1 X2]. pose proof (Qmin_o_le (ry a) (ry b)) as [Y1 Y2].
+  pose proof (Qmax_o_ge (rx a + rw a) (rx b + rw b)) as [R1 R2]. pose proof (Qmax_o_ge (ry a + rh a) (ry b + rh b)) as [B1 B2].
+  repeat split; lra.
+Qed.
+Lemma rect_inside_trans a b c : rect_inside a b -> rect_inside b c -> rect_inside a c.
+Proof. unfold rect_inside. intros (A1 & A2 & A3 & A4) (B1 & B2 & B3 & B4). repeat split; lra. Qed.
+Lemma rect_inside_refl a : rect_inside a a.
+Proof. unfold rect_inside. repeat split; lra. Qed.
+
+Lemma union_children_inside cs : forall acc u, union_children acc cs = Some u ->
+  (forall a, acc = Some a -> rect_inside a u) /\
+  (forall c, In c cs -> gc_empty_group c = false -> rect_inside (gc_box c) u).
+Proof.
+  induction cs as [|c r IH]; intros acc u H; simpl in H.
+  - split; [intros a ->; inversion H; apply rect_inside_refl|intros c []].
+  - destruct (gc_empty_group c) eqn:Ec.
+    + destruct (IH acc u H) as [A B]. split; [exact A|].
+      intros c' [<-|Hin] Hc; [congruence|apply B; assumption].
+    + destruct (IH _ u H) as [A B]. split.
+      * intros a ->. apply (rect_inside_trans _ (rect_union a (gc_box c))); [apply rect_union_inside|apply A; reflexivity].
+      * intros c' [<-|Hin] Hc; [|apply B; assumption].
+        destruct acc as [a|].
+        -- apply (rect_inside_trans _ (rect_union a (gc_box c))); [apply rect_union_inside|apply A; reflexivity].
+        -- apply A. reflexivity.
+Qed.
+
+(* every child that is not an empty group - zero-area ones included - lies inside the object box *)
+Lemma object_bbox_contains cs B : object_bbox cs = Some B ->
+  forall c, In c cs -> gc_empty_group c = false -> rect_inside (gc_box c) B.
+Proof.
+  unfold object_bbox. destruct (union_children None cs) as [u|] eqn:E; [|discriminate].
+  unfold to_non_zero_rect. intros H c Hin Hc. apply nz_some in H as (_ & _ & ->).
+  destruct (union_children_inside cs None u E) as [_ K]. specialize (K c Hin Hc).
+  unfold rect_inside, r_right, r_bottom in *. simpl. destruct u; simpl in *. exact K.
+Qed.
